@@ -147,6 +147,8 @@ class SimNet:
         self.nconn = 0
         self.slow_by = 0
         self.cut_next = None
+        self.sched = None  # E3: scheduler to notify at every socket call
+        self.socket_guard = None  # E3: callable(sock, what) checking who uses a socket
 
     # -- configuration -----------------------------------------------------
     def add_server(self, host, port=None, **kw) -> ModelServer:
@@ -275,8 +277,10 @@ class SimSocket:
     # -- helpers -----------------------------------------------------------
     def _io_guard(self, what):
         net = self.net
-        if self.thread_guard is not None:
-            self.thread_guard(self, what)
+        if net.sched is not None:
+            net.sched.point("sock")
+        if net.socket_guard is not None:
+            net.socket_guard(self, what)
         if self.shadow:
             net.raw_io.append((net.call, self.sid, what))
         if self.state == "closed":
@@ -546,6 +550,8 @@ class SimSocket:
 
     def close(self):
         net = self.net
+        if net.sched is not None:
+            net.sched.point("sock")
         self.close_calls += 1
         c = "ok"
         if self.state != "closed":
